@@ -73,8 +73,13 @@ func c15ValidRoomIDRef(id string) bool {
 
 // memberTree builds the membership event a template asks for on top of the room state.
 func c15MemberTree(b *c15Builder, typ, sender string, stateKey *string, room string, content jv) jv {
+	return c15MemberTreeAuth(b, typ, sender, stateKey, room, content, nil)
+}
+
+// c15MemberTreeAuth: as c15MemberTree with the auth events given (nil = selected from the state).
+func c15MemberTreeAuth(b *c15Builder, typ, sender string, stateKey *string, room string, content jv, auth []string) jv {
 	cp := *b
-	e := raEv{Type: typ, Sender: sender, StateKey: stateKey, Content: content}
+	e := raEv{Type: typ, Sender: sender, StateKey: stateKey, Content: content, Auth: auth}
 	ev := cp.tree(e)
 	if room != b.RoomID {
 		ev = ev.with("room_id", jstr(room)).without("hashes")
